@@ -206,7 +206,9 @@ func (b *assignmentBuilder) structFieldAndStructGettersAndFields(lhs bmodel.Node
 				a = nestStruct
 			}
 		}
-		return true
+		// Keep looking when this candidate did not fit: under ":case:off" another member whose
+		// name differs only in case may have a matching type.
+		return a != nil || err != nil
 	}
 
 	// With ":match none" nothing is matched by name, getters included.
